@@ -288,6 +288,20 @@ async fn episode(p: &EpParams) -> EpReport {
             w.settle().await;
         }
         w.settle().await;
+        // every other episode: one message of 3.6 MB (legal: below the 4 MiB request limit) is
+        // published first, on its own; it sits at the front of the backlog and must be handed to
+        // a parked consumer like any other message, or nobody behind it is ever served
+        if k % 2 == 1 {
+            let mut m = Msg::tagged("heavy");
+            m.data = b"T:heavy|".to_vec();
+            m.data.resize(3_600_000, b'x');
+            if cx.publish(&t2, &[m]).await.is_err() {
+                rep.inconclusive("heavy publish failed");
+            } else {
+                rep.inc("heavy_message_published_to_parked_consumers");
+            }
+            w.settle().await;
+        }
         let msgs: Vec<Msg> = (0..n_pub).map(|j| Msg::tagged(&format!("g{}", j))).collect();
         if cx.publish(&t2, &msgs).await.is_err() {
             rep.inconclusive("big publish failed");
